@@ -815,6 +815,11 @@ func (am *AccountingManager) recoverOrphanedSessions() error {
 		return err
 	}
 
+	// Sessions whose Accounting-Stop is already waiting in pending.json (a shutdown
+	// could not deliver it). That record carries the final counters and is sent
+	// below; the session file must not produce a second Stop for the same session.
+	pendingStops := am.persistedPendingStops()
+
 	for _, entry := range entries {
 		if entry.IsDir() || filepath.Ext(entry.Name()) != ".json" {
 			continue
@@ -832,6 +837,11 @@ func (am *AccountingManager) recoverOrphanedSessions() error {
 			continue
 		}
 		verifCrashPoint("recover.read")
+
+		if pendingStops[session.SessionID] {
+			os.Remove(path)
+			continue
+		}
 
 		// Send Accounting-Stop for orphaned session
 		am.logger.Info("Recovering orphaned session",
@@ -903,6 +913,26 @@ func (am *AccountingManager) recoverOrphanedSessions() error {
 	verifCrashPoint("recover.pendingRemoved")
 
 	return nil
+}
+
+// persistedPendingStops returns the IDs of the sessions that have an
+// Accounting-Stop in the persisted pending.json.
+func (am *AccountingManager) persistedPendingStops() map[string]bool {
+	stops := make(map[string]bool)
+	data, err := os.ReadFile(filepath.Join(am.persistPath, "pending.json"))
+	if err != nil {
+		return stops
+	}
+	var records map[string]*PendingAcctRecord
+	if err := json.Unmarshal(data, &records); err != nil {
+		return stops
+	}
+	for _, record := range records {
+		if record != nil && record.Request != nil && record.Request.StatusType == AcctStatusStop {
+			stops[record.Request.SessionID] = true
+		}
+	}
+	return stops
 }
 
 // GetStats returns accounting manager statistics
